@@ -607,6 +607,7 @@ int cmdApi(int argc, char** argv) {
 							if (!ids.empty()) nif->SetShapePartitions(sh, pinfo, tp);
 						}
 						else if (kd == "update") nif->UpdateSkinPartitions(sh);
+						else if (kd == "default") nif->SetDefaultPartition(sh);
 						else if (kd == "clean") nif->RemoveEmptyPartitions(sh);
 						else if (kd == "delv") {
 							// the vertex whose original number is v
